@@ -327,8 +327,11 @@ def object_dependent_required(V):
 def _composition(V, op):
     a, b_ = V.pick('A', SUB), V.pick('B', SUB)
     s = {op: [a, b_]}
+    tag = op
     if V.thorough and V.bool('nested'):
-        s = {V.pick('op2', ['anyOf', 'oneOf', 'allOf']): [s, V.pick('C', SUB)]}
+        outer = V.pick('op2', ['anyOf', 'oneOf', 'allOf'])
+        s = {outer: [s, V.pick('C', SUB)]}
+        tag = '%s(%s)' % (outer, op)        # nested compositions carry both operators in the signature, outermost first
     b = build(V, s)
     if b[0] == 'refused':
         V.check(not satisfiable(s, ANYV + [[1, 2], ['a'], {'a': 'x'}, {}]), 'build:refused-satisfiable-schema:' + refusal_label(b[1]),
@@ -336,7 +339,7 @@ def _composition(V, op):
         V.cover('reject')
         return
     x = V.pick('x', ANYV + [[1, 2], ['a'], {'a': 'x'}, {}, 'ab', -1])
-    check_value(V, s, b[1], x, 'composition:' + op)
+    check_value(V, s, b[1], x, 'composition:' + tag)
 
 
 for _op in ('anyOf', 'oneOf', 'allOf'):
